@@ -352,7 +352,7 @@ func (s *sys) stop() {
 
 func (s *sys) alive() bool {
 	if s.eng != nil {
-		return s.eng.e != nil
+		return s.eng.up()
 	}
 	return s.m != nil
 }
